@@ -29,8 +29,14 @@ def extract_function(path, name):
     src = open(path).read()
     import re
     for m in re.finditer(r'^[^\n;{}#]*\b' + re.escape(name) + r'\s*\(', src, re.M):
-        i = src.find('{', m.end())
-        semi = src.find(';', m.end())
+        # skip the parameter list (it may contain braces: "hint = {}"), then the body starts at the next '{'
+        depth_p = 1; q = m.end()
+        while q < len(src) and depth_p:
+            if src[q] == '(': depth_p += 1
+            elif src[q] == ')': depth_p -= 1
+            q += 1
+        i = src.find('{', q)
+        semi = src.find(';', q)
         if i < 0 or (0 <= semi < i): continue          # a declaration or a call, not a definition
         depth = 0; j = i
         while j < len(src):
@@ -47,7 +53,15 @@ def extract_block(path, start_regex):
     src = open(path).read()
     m = re.search(start_regex, src, re.M)
     if not m: raise RuntimeError('pattern %r not found in %s' % (start_regex, path))
-    i = src.find('{', m.end() - 1 if src[m.end() - 1] == '{' else m.end())
+    start = m.end()
+    if src[m.end() - 1] == '(':                       # function-style anchor: skip the parameter list first
+        depth_p = 1; q = m.end()
+        while q < len(src) and depth_p:
+            if src[q] == '(': depth_p += 1
+            elif src[q] == ')': depth_p -= 1
+            q += 1
+        start = q
+    i = src.find('{', start - 1 if src[start - 1] == '{' else start)
     depth = 0; j = i
     while j < len(src):
         if src[j] == '{': depth += 1
@@ -76,7 +90,7 @@ def compile_unit(unit, wd, defines=()):
     cmd = ['clang++-14'] + flags + ['-D' + d for d in defines] + [src, '-o', out]
     r = subprocess.run(cmd, capture_output=True, text=True)
     if r.returncode != 0:
-        raise RuntimeError('clang failed for %s:\n%s' % (unit, r.stderr[-3000:]))
+        raise RuntimeError('clang failed for %s:\n%s' % (unit, r.stderr[:2500] + '\n...\n' + r.stderr[-1500:]))
     return out
 
 def run_job_S(job, lls):
@@ -231,7 +245,28 @@ def check(pid, tier, seed, wd, only, t0):
             for macro, (relpath, fname) in j.snippets.items():
                 sp = os.path.join(wd, 'snip_%s.inc' % macro)
                 if not os.path.exists(sp):
-                    body = extract_block(os.path.join(REPO, relpath), fname[3:]) if fname.startswith('re:') else extract_function(os.path.join(REPO, relpath), fname)
+                    optional_ = fname.startswith('?')
+                    if optional_:
+                        fname = fname[1:]
+                        try:
+                            body = extract_block(os.path.join(REPO, relpath), fname[3:]) if fname.startswith('re:') else extract_function(os.path.join(REPO, relpath), fname)
+                        except RuntimeError:
+                            body = '// (not present in this tree)'
+                        with open(sp, 'w') as f: f.write('// lifted from %s at check time\n' % relpath + body + '\n')
+                        continue_outer = True
+                    else:
+                        continue_outer = False
+                    if continue_outer:
+                        d = '%s="%s"' % (macro, sp)
+                        if d not in j.defines: j.defines.append(d)
+                        continue
+                    if fname.startswith('re1:'):      # one statement: from the match to the first ';'
+                        import re as _re
+                        src_ = open(os.path.join(REPO, relpath)).read(); mm_ = _re.search(fname[4:], src_, _re.M)
+                        if not mm_: raise RuntimeError('pattern %r not found in %s' % (fname[4:], relpath))
+                        body = src_[mm_.start():src_.index(';', mm_.end()) + 1]
+                    else:
+                        body = extract_block(os.path.join(REPO, relpath), fname[3:]) if fname.startswith('re:') else extract_function(os.path.join(REPO, relpath), fname)
                     with open(sp, 'w') as f: f.write('// lifted from %s at check time\n' % relpath + body + '\n')
                 d = '%s="%s"' % (macro, sp)
                 if d not in j.defines: j.defines.append(d)
@@ -264,7 +299,7 @@ def check(pid, tier, seed, wd, only, t0):
                         if not added or attempt == 5: raise
     except RuntimeError as e:
         # the harness no longer compiles against /repo (an internal name it reaches into changed): no verdict, never a VIOLATION
-        print('INCONCLUSIVE harness does not compile against the current tree: %s' % str(e)[-1500:])
+        print('INCONCLUSIVE harness does not compile against the current tree: %s' % str(e)[:4000])
         return 3
     results = []
     nproc = int(os.environ.get('VERIF_JOBS', '16'))
